@@ -577,3 +577,12 @@ package raft
 //@              a.Entries[k] == newEntries[k - (len(a.Entries) - len(newEntries))]
 //@   loop 1 invariant matched_prefix: forall j int :: 0 <= j && j < #i ==> a.Entries[j].Index <= lastLogIdx &&
 //@              r.logs.has[a.Entries[j].Index] && r.logs.ent[a.Entries[j].Index].Term == a.Entries[j].Term
+
+//@ func (s *followerReplication) notifyAll
+//@   requires nonnil: s != nil && s.notify != nil
+//@   requires futures_valid: forall w *verifyFuture :: dom(s.notify, w) ==> w != nil && w.votes < MaxInt63
+//@   ensures  cleared: forall w *verifyFuture :: !dom(s.notify, w)
+//@   ensures  fresh_set: s.notify != nil && s.notify != old(s.notify)
+//@   at call (*verifyFuture).vote#1 assert deregistered_before_vote: forall w *verifyFuture :: !dom(s.notify, w)
+//@   loop 1 invariant emptied: (forall w *verifyFuture :: !dom(s.notify, w)) && s.notify != nil && s.notify != old(s.notify) && isfresh(s.notify)
+//@   loop 1 invariant bounded: forall j int :: #i <= j && j < #card ==> #key(j) != nil && #key(j).votes < MaxInt63
